@@ -135,6 +135,17 @@ Theorem C17_auth_refines_spec :
 Proof. exact auth_do_tok_refines_spec. Qed.
 Print Assumptions C17_auth_refines_spec.
 
+(* ... and the whole blob push (POST, its token request, PUT, its token request) refines the
+   stateless spec_push built from spec_send *)
+Theorem C17_blob_push_refines_spec :
+  forall authc p bd sc tb tsc,
+    wf_body bd -> replayable bd -> wf_body tb -> replayable tb ->
+    let u := blob_push_tok authc p None bd sc tb tsc in
+    (uk_res u, uk_time u, show_authk (uk_post u), option_map show_authk (uk_put u))
+    = spec_push authc p bd sc tb tsc.
+Proof. exact blob_push_tok_refines_spec. Qed.
+Print Assumptions C17_blob_push_refines_spec.
+
 (* --- bodies ---------------------------------------------------------------- *)
 
 (* on attempt i the registry receives exactly what it reads of the complete original
